@@ -60,6 +60,7 @@ type Behaviour struct {
 	ExitCode       int64
 	LogLines       []string
 	InspectUser    string // user reported by inspect ("" = same as created)
+	CreateErr      bool   // every container creation on this machine fails
 }
 
 // Node is the engine-side state of one simulated machine; it survives crashes of core.
@@ -239,6 +240,9 @@ func (e *Engine) VirtualizationCreate(ctx context.Context, opts *enginetypes.Vir
 	n := e.N
 	n.mu.Lock()
 	defer n.mu.Unlock()
+	if n.Beh.CreateErr {
+		return nil, fmt.Errorf("simengine: machine %s refuses to create containers", n.Name)
+	}
 	n.seq++
 	id := fmt.Sprintf("%s%056x%04x", hex4(n.Name), 0xc0ffee, n.seq)
 	labels := map[string]string{}
